@@ -104,7 +104,8 @@ def concurrent_check(res, prop, tier, harness_src, model, expected_rules, quick_
             if v2:
                 violations = v2
                 break
-    known = known or []
+    # open known findings come from the committed file (never written at run time); `known=` adds check-local ones
+    known = list(known or []) + [k for k in C.load_findings().get('open', []) if k.get('property') == prop]
     reported = 0
     seen_keys = set()
     for v in violations:
